@@ -484,6 +484,27 @@ func init() {
 		}
 		return strings.Join(out, " ")
 	})
+	// wb.ttl <dmap> <keyhex>: presence and expiry of every copy (lock entries: the token bytes are random)
+	register("wb.ttl", func(a []string) string {
+		key := string(unhx(a[1]))
+		var out []string
+		for i, m := range cl.members {
+			if !m.alive {
+				out = append(out, fmt.Sprintf("m%d:down", i))
+				continue
+			}
+			s := m.db.VerifInternals().DMap
+			f := func(kind partitions.Kind) string {
+				ok, _, ttl, _, _ := s.VerifCopy(a[0], key, kind)
+				if !ok {
+					return "-"
+				}
+				return strconv.FormatInt(ttl, 10)
+			}
+			out = append(out, fmt.Sprintf("m%d:P=%s,B=%s", i, f(partitions.PRIMARY), f(partitions.BACKUP)))
+		}
+		return strings.Join(out, " ")
+	})
 	register("wb.keys", func(a []string) string {
 		var out []string
 		for i, m := range cl.members {
